@@ -35,6 +35,12 @@ pub enum C17Case {
     /// already contain everything consumed.  kind: 0 u8, 1 f32, 2 Complex, 3 u32;
     /// stream size index 0..4; batch sizes 1..=chunk_max from the case's own generator.
     Durable { kind: u8, n: u32, seed: u32, chunk_max: u32, stream: u8 },
+    /// The destination is a FIFO whose reader (the harness) takes `piece` bytes at a time,
+    /// so the sink's write blocks in the middle of a work() call; or `/dev/full`, where the
+    /// write fails.  At every instant: bytes consumed from the stream <= bytes the kernel
+    /// has accepted (read by the harness + pipe capacity); after an Err nothing of that
+    /// call may count as consumed.  kind: 0 u8, 1 f32, 2 str (NoCopyFileSink).
+    Blocked { kind: u8, n: u32, seed: u32, piece: u16, dev_full: bool },
 }
 
 fn mode_str(m: u8) -> &'static str {
@@ -147,7 +153,9 @@ impl Prop for C17 {
             0u8..4,
         )
             .prop_map(|(kind, n, seed, chunk_max, stream)| C17Case::Durable { kind, n, seed, chunk_max: chunk_max.max(n / 300), stream });
-        prop_oneof![8 => modes, kw => kills, 6 => durable].boxed()
+        let blocked = (0u8..3, prop_oneof![1u32..3000, 20_000u32..120_000], any::<u32>(), 1u16..20_000, prop::bool::weighted(0.25))
+            .prop_map(|(kind, n, seed, piece, dev_full)| C17Case::Blocked { kind, n, seed, piece, dev_full });
+        prop_oneof![8 => modes, kw => kills, 6 => durable, 1 => blocked].boxed()
     }
     fn cases(&self, tier: Tier) -> u64 {
         tier.pick(4_000, 40_000)
@@ -169,6 +177,7 @@ impl Prop for C17 {
     fn run(&self, case: &C17Case, ctx: &mut Ctx) {
         match case {
             C17Case::Mode { mode, init, kind, n, seed, chunk } => run_mode(*mode, *init, *kind, *n as usize, *seed as u64, *chunk as usize, ctx),
+            C17Case::Blocked { kind, n, seed, piece, dev_full } => run_blocked(*kind, *n as usize, *seed as u64, *piece as usize, *dev_full, ctx),
             C17Case::Durable { kind, n, seed, chunk_max, stream } => run_durable(*kind, *n as usize, *seed as u64, *chunk_max as u64, *stream, ctx),
             C17Case::Kill { mode, init, kind, n, seed, chunk, acks, spin } => {
                 run_kill(*mode, *init, *kind, *n as usize, *seed as u64, *chunk as usize, *acks as usize, *spin, ctx)
@@ -176,13 +185,14 @@ impl Prop for C17 {
         }
     }
     fn rule(&self) -> String {
-        "enumerated: open modes x initial file states x sink kinds (54 combinations), plus generated data lengths/chunkings; fault enumeration: a child process streams a seeded sequence through the sink and acknowledges the running count of consumed samples (raw write(2)) after every work() that returns; the parent SIGKILLs it after a generated number of acknowledgements plus a generated busy-wait. Oracle: constructor result and final file content equal a model of the documented modes (Create fails iff the path exists; Overwrite leaves exactly the new data; Append keeps old content and appends, creating the file if absent; structural impossibilities are Err); after a kill the file is (old content for Append ++) a byte prefix of the serialised stream, at least as long as the last acknowledged count. In-process crash-point enumeration ('durable' cases): FileSink<u8|f32|Complex|u32> on streams of 8 KiB, 64 KiB, 1 MiB and the default 4 MB, fed batches of 1..200 000 samples; after *every* work() that returns, the file is read through a second descriptor (exactly what a SIGKILL at that instant leaves behind, since the page cache survives the process) and must hold all consumed samples and be a prefix of the serialised stream. Non-trivial: a durable case with >= 2 work() returns, a mode case whose initial state is not 'absent', or a kill that landed after >= 1 acknowledgement and before the end; distinct = hash of the case (kill timing is not part of the hash).".into()
+        "enumerated: open modes x initial file states x sink kinds (54 combinations), plus generated data lengths/chunkings; fault enumeration: a child process streams a seeded sequence through the sink and acknowledges the running count of consumed samples (raw write(2)) after every work() that returns; the parent SIGKILLs it after a generated number of acknowledgements plus a generated busy-wait. Oracle: constructor result and final file content equal a model of the documented modes (Create fails iff the path exists; Overwrite leaves exactly the new data; Append keeps old content and appends, creating the file if absent; structural impossibilities are Err); after a kill the file is (old content for Append ++) a byte prefix of the serialised stream, at least as long as the last acknowledged count. In-process crash-point enumeration ('durable' cases): FileSink<u8|f32|Complex|u32> on streams of 8 KiB, 64 KiB, 1 MiB and the default 4 MB, fed batches of 1..200 000 samples; after *every* work() that returns, the file is read through a second descriptor (exactly what a SIGKILL at that instant leaves behind, since the page cache survives the process) and must hold all consumed samples and be a prefix of the serialised stream. Crash points inside a call ('blocked' cases): the destination is a FIFO drained by the harness in pieces, so the sink blocks in write(2) mid-call while the harness samples how much of the stream counts as consumed: bytes consumed <= bytes read from the FIFO + pipe capacity (+ one packet for the packet sink) at every observation - an invariant of any sink that consumes after writing, so timing can hide a violation but not produce one; and /dev/full, where the write fails: nothing of that call may count as consumed (stream sink). Non-trivial: a FIFO case with more data than the pipe holds, a durable case with >= 2 work() returns, a mode case whose initial state is not 'absent', or a kill that landed after >= 1 acknowledgement and before the end; distinct = hash of the case (kill timing is not part of the hash).".into()
     }
     fn assumptions(&self) -> Vec<String> {
         vec![
             "process death (SIGKILL), not power loss: data handed to the kernel counts as on disk".into(),
             "runs as root: permission-based 'unwritable' states are replaced by structural ones (directory, path below a file, missing parent)".into(),
             "the kill instant is not reproducible; the oracle holds for every instant".into(),
+            "packet streams have no peek: the one packet NoCopyFileSink is writing was popped before the write, so during a call one packet may be in flight, and its loss after an Err return (write failure) is not asserted".into(),
         ]
     }
 }
@@ -255,6 +265,263 @@ fn run_mode(mode: u8, init: Init, kind: u8, n: usize, seed: u64, chunk: usize, c
                 );
             }
         }
+    }
+}
+
+/// Crash points *inside* a work() call: the sink thread is stuck in write(2) on a FIFO (or
+/// gets ENOSPC from /dev/full) while the harness watches how much of the stream counts as
+/// consumed.  The invariant holds at every instant for a sink that consumes after writing,
+/// so timing can only hide a violation, never produce one.
+fn run_blocked(kind: u8, n: usize, seed: u64, piece: usize, dev_full: bool, ctx: &mut Ctx) {
+    use std::io::Read;
+    use std::os::fd::AsRawFd;
+    use std::os::unix::fs::OpenOptionsExt;
+    let tname = ["u8", "f32", "str"][(kind % 3) as usize];
+    ctx.class(format!("blocked/{}/{tname}", if dev_full { "dev-full" } else { "fifo" }));
+    let sc = Scratch::new();
+    let (bytes, offs) = serialised(kind, n, seed);
+    if dev_full {
+        // the write fails: whatever work() returns, samples not in the "file" must not be consumed
+        rustradio::verif::set_stream_size(Some(1 << 20));
+        let r = catch(|| -> Option<String> {
+            match kind % 3 {
+                2 => {
+                    let data = sink_stream_str(n.min(2000), seed);
+                    let (w, rd) = rustradio::stream::new_nocopy_stream::<String>();
+                    let mut sink = NoCopyFileSink::<String>::new(rd, "/dev/full", rustradio::file_sink::Mode::Append).ok()?;
+                    let mut pushed = 0usize;
+                    for s in data {
+                        if s.is_empty() {
+                            continue;
+                        }
+                        w.push(s, &[]);
+                        pushed += 1;
+                        let before = w.verif_len();
+                        let res = sink.work();
+                        let after = w.verif_len();
+                        // (a packet stream has no peek: the packet being written was popped before
+                        // the write, so its loss after an Err return is inherent and not asserted)
+                        let _ = pushed;
+                        if res.is_ok() && after < before {
+                            return Some(format!("NoCopyFileSink on /dev/full: work() returned Ok and consumed {} packets that cannot be in the file", before - after));
+                        }
+                    }
+                    None
+                }
+                k => {
+                    macro_rules! go {
+                        ($t:ty, $d:expr) => {{
+                            let data: Vec<$t> = $d;
+                            let (w, rd) = rustradio::stream::new_stream::<$t>();
+                            let mut sink = FileSink::<$t>::new(rd, "/dev/full", rustradio::file_sink::Mode::Append).ok()?;
+                            let m = data.len().min(w.free());
+                            if m == 0 {
+                                return None;
+                            }
+                            let cap = w.free();
+                            {
+                                let mut wb = w.write_buf().unwrap();
+                                wb.slice()[..m].copy_from_slice(&data[..m]);
+                                wb.produce(m, &[]);
+                            }
+                            let res = sink.work();
+                            let consumed = m - (cap - w.free());
+                            if consumed > 0 {
+                                return Some(format!(
+                                    "FileSink<{tname}> on /dev/full: work() returned {}, and {consumed} of {m} samples count as consumed although none can be in the file",
+                                    if res.is_err() { "Err" } else { "Ok" }
+                                ));
+                            }
+                            None
+                        }};
+                    }
+                    if k == 0 { go!(u8, sink_stream_u8(n, seed)) } else { go!(f32, sink_stream_f32(n, seed)) }
+                }
+            }
+        });
+        rustradio::verif::set_stream_size(None);
+        if n > 0 {
+            ctx.nontrivial();
+        }
+        match r {
+            Err(pi) => ctx.fail(format!("C17/panic/{}", crate::engine::loc_file(&pi.loc)), format!("sink on /dev/full: panic at {}: {}", pi.loc, pi.msg)),
+            Ok(Some(msg)) => ctx.fail(format!("C17/blocked/consumed-but-write-failed/{tname}"), msg),
+            Ok(None) => {}
+        }
+        return;
+    }
+    // FIFO
+    let path = sc.path("fifo");
+    let cpath = std::ffi::CString::new(path.to_str().unwrap()).unwrap();
+    if unsafe { libc::mkfifo(cpath.as_ptr(), 0o600) } != 0 {
+        ctx.skip("mkfifo failed");
+        return;
+    }
+    let Ok(mut rd_end) = std::fs::OpenOptions::new().read(true).custom_flags(libc::O_NONBLOCK).open(&path) else {
+        ctx.skip("cannot open the FIFO");
+        return;
+    };
+    let pipe_cap = unsafe { libc::fcntl(rd_end.as_raw_fd(), libc::F_GETPIPE_SZ) }.max(4096) as usize;
+    rustradio::verif::set_stream_size(Some(1 << 20));
+    // everything is committed to the stream up front; `consumed()` reads the writer side
+    let unit_off = |units: usize| if units == 0 { 0 } else { offs[units - 1] };
+    enum W {
+        U8(rustradio::stream::WriteStream<u8>, usize),
+        F32(rustradio::stream::WriteStream<f32>, usize),
+        Str(rustradio::stream::NCWriteStream<String>),
+    }
+    let total_units;
+    let (wside, mut sink): (W, Box<dyn Block + Send>) = match kind % 3 {
+        2 => {
+            let data = sink_stream_str(n, seed);
+            let (w, rd) = rustradio::stream::new_nocopy_stream::<String>();
+            let Ok(sink) = NoCopyFileSink::<String>::new(rd, &path, rustradio::file_sink::Mode::Append) else {
+                rustradio::verif::set_stream_size(None);
+                ctx.skip("sink refused the FIFO");
+                return;
+            };
+            total_units = data.len();
+            for s in data {
+                w.push(s, &[]);
+            }
+            (W::Str(w), Box::new(sink))
+        }
+        0 => {
+            let data = sink_stream_u8(n, seed);
+            let (w, rd) = rustradio::stream::new_stream::<u8>();
+            let Ok(sink) = FileSink::<u8>::new(rd, &path, rustradio::file_sink::Mode::Append) else {
+                rustradio::verif::set_stream_size(None);
+                ctx.skip("sink refused the FIFO");
+                return;
+            };
+            let cap = w.free();
+            let m = data.len().min(cap);
+            total_units = m;
+            if m > 0 {
+                let mut wb = w.write_buf().unwrap();
+                wb.slice()[..m].copy_from_slice(&data[..m]);
+                wb.produce(m, &[]);
+            }
+            (W::U8(w, cap), Box::new(sink))
+        }
+        _ => {
+            let data = sink_stream_f32(n, seed);
+            let (w, rd) = rustradio::stream::new_stream::<f32>();
+            let Ok(sink) = FileSink::<f32>::new(rd, &path, rustradio::file_sink::Mode::Append) else {
+                rustradio::verif::set_stream_size(None);
+                ctx.skip("sink refused the FIFO");
+                return;
+            };
+            let cap = w.free();
+            let m = data.len().min(cap);
+            total_units = m;
+            if m > 0 {
+                let mut wb = w.write_buf().unwrap();
+                wb.slice()[..m].copy_from_slice(&data[..m]);
+                wb.produce(m, &[]);
+            }
+            (W::F32(w, cap), Box::new(sink))
+        }
+    };
+    rustradio::verif::set_stream_size(None);
+    let consumed_units = |w: &W| -> usize {
+        match w {
+            W::U8(w, cap) => total_units - (cap - w.free()),
+            W::F32(w, cap) => total_units - (cap - w.free()),
+            W::Str(w) => total_units - w.verif_len(),
+        }
+    };
+    let total_bytes = unit_off(total_units);
+    let done = std::sync::Arc::new(std::sync::atomic::AtomicBool::new(false));
+    let d2 = done.clone();
+    let worker = std::thread::spawn(move || {
+        // one packet per call for the packet sink, everything for the sample sink
+        let mut calls = 0usize;
+        let r = catch(|| {
+            loop {
+                match sink.work() {
+                    Err(e) => return Err(format!("{e}")),
+                    Ok(rustradio::block::BlockRet::Again) => {}
+                    Ok(_) => return Ok(()),
+                }
+                calls += 1;
+                if calls > total_units + 2 {
+                    return Ok(());
+                }
+            }
+        });
+        d2.store(true, std::sync::atomic::Ordering::SeqCst);
+        drop(sink);
+        r
+    });
+    let mut got: Vec<u8> = Vec::with_capacity(total_bytes);
+    // at most ~400 reads per case
+    let mut buf = vec![0u8; piece.max(1).max(total_bytes / 400)];
+    // a packet stream has no peek: the one packet being written is legitimately in flight
+    let in_flight = if kind % 3 == 2 { offs.iter().scan(0usize, |p, o| { let l = *o - *p; *p = *o; Some(l) }).max().unwrap_or(0) } else { 0 };
+    let mut worst: Option<(usize, usize)> = None;
+    let mut observations = 0u64;
+    let t0 = std::time::Instant::now();
+    let mut idle_since = std::time::Instant::now();
+    loop {
+        // observe first, then let some bytes through
+        let c = consumed_units(&wside);
+        let accepted_at_most = got.len() + pipe_cap + in_flight;
+        observations += 1;
+        if unit_off(c) > accepted_at_most && worst.is_none() {
+            worst = Some((c, got.len()));
+        }
+        if got.len() >= total_bytes {
+            break;
+        }
+        // give the sink a moment to block in write(2) before draining a piece
+        std::thread::sleep(std::time::Duration::from_micros(200));
+        match rd_end.read(&mut buf) {
+            Ok(0) => {
+                if done.load(std::sync::atomic::Ordering::SeqCst) {
+                    break;
+                }
+            }
+            Ok(k) => {
+                got.extend_from_slice(&buf[..k]);
+                idle_since = std::time::Instant::now();
+            }
+            Err(e) if e.kind() == std::io::ErrorKind::WouldBlock => {
+                if done.load(std::sync::atomic::Ordering::SeqCst) && idle_since.elapsed().as_millis() > 20 {
+                    break;
+                }
+            }
+            Err(_) => break,
+        }
+        if t0.elapsed().as_secs() > 20 {
+            break;
+        }
+    }
+    drop(rd_end);
+    let wr = worker.join();
+    ctx.count("blocked_observations", observations);
+    if total_bytes > pipe_cap {
+        ctx.nontrivial();
+        ctx.class("blocked/fifo/more-than-pipe-capacity");
+    }
+    if let Some((c, read)) = worst {
+        ctx.fail(
+            format!("C17/blocked/consumed-before-written/{tname}"),
+            format!(
+                "{} on a FIFO: {c} units ({} bytes) counted as consumed while the reader had taken {read} bytes and the pipe holds at most {pipe_cap}: at least {} bytes existed only in the sink's memory",
+                if kind % 3 == 2 { "NoCopyFileSink<String>" } else { "FileSink" },
+                unit_off(c),
+                unit_off(c) - read - pipe_cap
+            ),
+        );
+    }
+    match wr {
+        Ok(Err(pi)) => ctx.fail(format!("C17/panic/{}", crate::engine::loc_file(&pi.loc)), format!("sink on a FIFO: panic at {}: {}", pi.loc, pi.msg)),
+        Ok(Ok(Err(_e))) => {} // EPIPE after the reader left is fine
+        _ => {}
+    }
+    if got.len() <= bytes.len() && got[..] != bytes[..got.len()] {
+        ctx.fail("C17/blocked/not-a-prefix".to_string(), format!("the {} bytes read from the FIFO are not a prefix of the serialised stream", got.len()));
     }
 }
 
